@@ -70,7 +70,7 @@ func genC01(r *sim.Rand, tier string) *sim.Program {
 			choices = append(choices, "oneshot")
 		}
 		if enKdf {
-			choices = append(choices, "kdf", "kdf", "kdfpre", "kdfvia", "kdfwrap")
+			choices = append(choices, "kdf", "kdf", "kdfpre", "kdfvia", "kdfwrap", "kdfobj")
 		}
 		k := choices[r.Intn(len(choices))]
 		switch k {
@@ -95,6 +95,10 @@ func genC01(r *sim.Rand, tier string) *sim.Program {
 			n := genKLen(r)
 			m := r.Intn(n + 1)
 			p.Add("kdfpre", n, m).WithB(r.Bytes(zl))
+		case "kdfobj":
+			// the KDF through the method of a hash object that has a history: bytes written (and maybe a Sum taken),
+			// then Kdf twice; knob: 0 method, 1 kdf.Kdf with a constructor that hands out that same object
+			p.Add("kdfobj", genKLen(r), genKLen(r), r.Intn(2), r.Intn(2)).WithB(r.Bytes(r.Near(100, sm3Boundaries...)), r.Bytes(genZLen(r)), r.Bytes(genZLen(r)))
 		}
 	}
 	return p
@@ -328,6 +332,42 @@ func execC01(t *testing.T, p *sim.Program, c *sim.Ctx) {
 					d++
 				}
 				c.Fail("kdf-mismatch", i, op.K, "len(z)=%d n=%d: output differs from model at byte %d (len got %d want %d)", len(z), n, d, len(got), len(want))
+			}
+		case "kdfobj":
+			pre, z1, z2 := op.Bytes(0), op.Bytes(1), op.Bytes(2)
+			n1, n2 := op.Int(0), op.Int(1)
+			if n1 < 0 {
+				n1 = 0
+			}
+			if n2 < 0 {
+				n2 = 0
+			}
+			c.Abs("kdfobj", len(pre)%64, len(pre) >= 64, len(z1)%64, (n1+31)/32 >= 4, op.Int(2)&1, op.Int(3)&1)
+			u := sm3.New()
+			u.Write(pre)
+			if op.Int(2)&1 == 1 {
+				u.Sum(nil)
+			}
+			ki, ok := u.(kdf.KdfInterface)
+			if !ok {
+				break
+			}
+			c.Hit("probe:kdf-on-used-object")
+			for k, zn := range []struct {
+				z []byte
+				n int
+			}{{z1, n1}, {z2, n2}} {
+				var got []byte
+				if op.Int(3)&1 == 1 {
+					got = kdf.Kdf(func() hash.Hash { return u }, zn.z, zn.n)
+				} else {
+					got = ki.Kdf(zn.z, zn.n)
+				}
+				c.Out("kdfobj", got)
+				if want := sm3m.KDF(zn.z, zn.n); !bytes.Equal(got, want) {
+					c.Fail("kdf-mismatch", i, op.K, "Kdf call #%d on a hash object with a history (%d bytes written before): len(z)=%d n=%d differs from the model at byte %d", k+1, len(pre), len(zn.z), zn.n, firstDiff(got, want))
+					break
+				}
 			}
 		case "kdfpre":
 			z := op.Bytes(0)
